@@ -78,8 +78,16 @@ def cmd_contract(name, kind):
 
 
 def install(world):
-    register(world, Contract(func=RSC, serves=["C13"], scenarios=[], key=RSC,
-                             raises=[("ValueError", "two_columns_selected(selection)")], note="assumed summary (validated by the bounded monitor)"))
+    def any_selection(ex):
+        from pyvc.values import Arr2V
+
+        R, Cn = z3.Int("sel_rows"), z3.Int("sel_cols")
+        ex.p.assume(z3.And(R >= 1, Cn >= 1))
+        f = z3.Function("sel_at", z3.IntSort(), z3.IntSort(), z3.RealSort())
+        return {"selection": Arr2V(R, Cn, lambda i, j: Sym(f(i.t if isinstance(i, Sym) else i, j.t if isinstance(j, Sym) else j), "real"), "float")}
+
+    register(world, Contract(func=RSC, serves=["C13"], scenarios=[Scenario("any rows x cols array", any_selection)], key=RSC,
+                             raises=[("ValueError", "two_columns_selected(selection)")]))
     register(world, cmd_contract("evo_aspirate", "Aspirate")).shards = 6
     register(world, cmd_contract("evo_dispense", "Dispense")).shards = 6
 
